@@ -108,6 +108,18 @@ Proof.
   unfold pop_exec. destruct s1 as [[ce E] ci cf cb ins out lim]. reflexivity.
 Qed.
 
+(* ... and stays there: however many further steps the interpreter takes, it is where it would be had the failed
+   instruction been a no-op, namely where it gets from the state after the instruction with one step counted *)
+Theorem skips_carry_on s n p s1 s2 e k :
+  pop_exec s = Some (p, s1) -> perform_prog prec p s1 = Rec s2 e ->
+  iter_nat halted (step prec) (S k) (Running s n) =
+    iter_nat halted (step prec) (S k) (Running (set_exec (with_elems (PI Noop :: elems (exec s1)) (exec s1)) s1) n) /\
+  iter_nat halted (step prec) (S k) (Running s n) = iter_nat halted (step prec) k (Running s1 (n + 1)).
+Proof.
+  intros P Q. destruct (step_skips s n p s1 s2 e P Q) as [H1 H2].
+  cbn [iter_nat halted]. rewrite <- H2, H1. split; reflexivity.
+Qed.
+
 (* C03: no panic when every mentioned input variable is bound *)
 Definition rs_bound (r : rs) : Prop :=
   match r with Running s _ => inputs_bound s | Panicked => False | _ => True end.
